@@ -291,7 +291,9 @@ func c12Case(c *core.Ctx) {
 			if negInputSeen {
 				break
 			}
-			if x.v < -1e-9*math.Max(1, scale) {
+			// (rounding is that of the masses that have passed through the store so far, not of this step's: a store that
+			// 4e6 kg went through the step before comes out as -2e-9 kg after a flush)
+			if x.v < -1e-9*math.Max(1, math.Max(scale, runScale)) {
 				c.Violate("negative-stored-mass", model, fmt.Sprintf("t=%d: %s=%v", t, x.n, x.v), "what", x.n)
 			}
 		}
